@@ -90,17 +90,36 @@ def string_less_kind(prog, f, expr):
     return None
 
 
-def comparator_kind(prog, f, nid):
-    """kind of the ordering a comparator argument (function reference or lambda) implements on two strings"""
+def _callable_target(prog, f, nid, depth=0):
+    """the Fn a callable expression denotes: function reference, &function, lambda expression, or a (possibly captured) local that holds a lambda"""
+    if nid is None or depth > 4:
+        return None
     n = f.nodes[f.skip(nid)]
-    target = None
     if n['k'] == 'fnref' or (n['k'] == 'un' and n.get('op') == '&'):
         m = n if n['k'] == 'fnref' else f.nodes[f.skip(n['e'])]
         cands = prog.callee_fns(f, m)
-        target = cands[0] if cands else None
-    elif n['k'] == 'lambda':
+        return cands[0] if cands else None
+    if n['k'] == 'lambda':
         ls = prog.lambda_fns(f, n)
-        target = ls[0] if ls else None
+        return ls[0] if ls else None
+    if n['k'] == 'var' and n.get('vk') == 'local':
+        g = f
+        if n.get('outer'):
+            # captured: the definition is in an enclosing function
+            while g is not None and not any(d.get('var') == n['decl'] for _, dn in g.all_nodes('decl') for d in dn['decls']):
+                g = prog.fns.get(g.parent_id) if g.is_lambda else None
+            if g is None:
+                return None
+        d = g.single_def(n['decl'])
+        return _callable_target(prog, g, d, depth + 1) if d is not None else None
+    if n['k'] in ('cast', 'icast', 'construct') and (n.get('e') is not None or n.get('args')):
+        return _callable_target(prog, f, n['e'] if n.get('e') is not None else n['args'][0], depth + 1)
+    return None
+
+
+def comparator_kind(prog, f, nid):
+    """kind of the ordering a comparator argument (function reference, lambda, local holding a lambda) implements on two strings"""
+    target = _callable_target(prog, f, nid)
     if target is None:
         return None, None
     rets = [rn for _, rn in target.returns()]
@@ -114,6 +133,20 @@ def comparator_kind(prog, f, nid):
             return ('utf16', False), target
         return None, target
     return k, target
+
+
+def _mentions_identity(prog, g, depth=0):
+    """the function (or a same-file key function it calls) reads accessors of QXmppDiscoveryIq::Identity"""
+    for i, n in g.calls():
+        if g.cname(n).startswith(IDENT):
+            return True
+    if depth < 2:
+        for i, n in g.calls():
+            if not n.get('op'):
+                for h in prog.callee_fns(g, n):
+                    if h.file == g.file and h.entry is not None and h.id != g.id and _mentions_identity(prog, h, depth + 1):
+                        return True
+    return False
 
 
 def _sort_sites(prog, f):
@@ -155,109 +188,178 @@ def _loops(f):
 
 
 def _s_var(f):
-    """decl id of the string that is hashed"""
+    """(decl id of the string that is hashed, node of the digest call, node of the algorithm argument)"""
     for i, n in f.calls('QCryptographicHash::addData'):
         base = f.nodes[_strip_conv(f, n['args'][0])]
         if base['k'] == 'var' and base.get('vk') == 'local':
-            return base['decl'], i
-    raise AnalysisBroken('C20: hasher.addData(<local string>) not found in verificationString')
+            ctor = [c for _, c in f.all_nodes('construct') if c.get('cls') == 'QCryptographicHash']
+            return base['decl'], i, (ctor[0]['args'][0] if ctor and ctor[0].get('args') else None)
+    for i, n in f.calls('QCryptographicHash::hash'):
+        if len(n.get('args', [])) >= 2:
+            base = f.nodes[_strip_conv(f, n['args'][0])]
+            if base['k'] == 'var' and base.get('vk') == 'local':
+                return base['decl'], i, n['args'][1]
+    raise AnalysisBroken('C20: the digest over a local string (hasher.addData(S...) / QCryptographicHash::hash(S..., alg)) not found in verificationString')
+
+
+def _root_is(f, nid, sdecl):
+    """the expression is the string variable itself or a chain of append() calls on it"""
+    n = f.nodes[f.skip(nid)]
+    while n['k'] == 'call' and f.cname(n) in ('QString::append', 'QString::operator+=') and (n.get('obj') is not None or n.get('opargs')):
+        n = f.nodes[f.skip(n['obj'] if n.get('obj') is not None else n['opargs'][0])]
+    return n['k'] == 'var' and n.get('decl') == sdecl
 
 
 def _appends(f, sdecl):
-    return [(i, n) for i, n in f.all_nodes('assign') if n['op'] == '+=' and f.nodes[f.skip(n['l'])].get('decl') == sdecl]
+    """[(node, appended expression)] in the function: S += e, S.append(e) (also chained)"""
+    out = []
+    for i, n in f.all_nodes('assign'):
+        if n['op'] == '+=' and f.nodes[f.skip(n['l'])].get('decl') == sdecl:
+            out.append((i, n['r']))
+    for i, n in f.calls():
+        cn = f.cname(n)
+        if cn == 'QString::append' and n.get('obj') is not None and n.get('args') and _root_is(f, n['obj'], sdecl):
+            out.append((i, n['args'][0]))
+        elif cn == 'QString::operator+=' and len(n.get('opargs', [])) == 2 and _root_is(f, n['opargs'][0], sdecl):
+            out.append((i, n['opargs'][1]))
+    return out
+
+
+def _scope(prog):
+    """[(function, decl of the hashed string in it)]: verificationString and the same-file helpers it hands the string to by reference"""
+    f = prog.fn(VS)
+    sdecl = _s_var(f)[0]
+    out = [(f, sdecl)]
+    seen = {f.id}
+    work = [(f, sdecl)]
+    while work:
+        g, sd = work.pop()
+        for i, n in g.calls():
+            if n.get('op'):
+                continue
+            for k, a in enumerate(n.get('args', [])):
+                an = g.nodes[g.skip(a)]
+                if an['k'] == 'var' and an.get('decl') == sd:
+                    for h in prog.callee_fns(g, n):
+                        if h.file == f.file and h.entry is not None and h.id not in seen and k < len(h.params) \
+                                and 'QString &' in h.params[k]['t'] and 'const' not in h.params[k]['t']:
+                            seen.add(h.id)
+                            out.append((h, h.params[k]['var']))
+                            work.append((h, h.params[k]['var']))
+    return out
+
+
+def _helper_calls(prog, g, sd, scope):
+    """{call node in g: (helper Fn, its string decl)} for calls that hand the hashed string to a scope helper"""
+    by_id = {h.id: (h, hsd) for h, hsd in scope}
+    out = {}
+    for i, n in g.calls():
+        if n.get('op'):
+            continue
+        if any(g.nodes[g.skip(a)].get('decl') == sd and g.nodes[g.skip(a)]['k'] == 'var' for a in n.get('args', [])):
+            for h in prog.callee_fns(g, n):
+                if h.id in by_id and h.id != g.id:
+                    out[i] = by_id[h.id]
+    return out
 
 
 def r_sort(prog, run):
     rid = run.rule('C20.R1', 'every container whose elements are appended to the hashed string is a local copy sorted (after its last mutation) with the '
                              'i;octet collation; features are de-duplicated; multi-values are sorted before being joined', floor=5)
-    f = prog.fn(VS)
-    sdecl, hash_call = _s_var(f)
-    apps = _appends(f, sdecl)
-    if len(apps) < 5:
-        raise AnalysisBroken('C20.R1: only %d appends to the hashed string found' % len(apps))
-    sorts = _sort_sites(prog, f)
-    loops = _loops(f)
+    scope = _scope(prog)
+    total = sum(len(_appends(g, sd)) for g, sd in scope)
+    if total < 5:
+        raise AnalysisBroken('C20.R1: only %d appends to the hashed string found' % total)
     seen_sources = set()
+    n_joins = 0
+    for f, sdecl in scope:
+        apps = _appends(f, sdecl)
+        helper_calls = _helper_calls(prog, f, sdecl, scope)
+        sorts = _sort_sites(prog, f)
+        loops = _loops(f)
 
-    def check_sorted(container, use_nid, what, need_dedup=False):
-        run.instance(rid)
-        if container is None or container.get('vk') != 'local':
-            run.violation(rid, 'verificationString#%s#unsorted' % what, f.loc(use_nid), 'the %s are appended in the order they are stored (no sorted local copy)' % what)
-            return
-        decl = container['decl']
-        ss = [s for s in sorts.get(decl, []) if f.node_dominates(s[0], use_nid)]
-        if not ss:
-            run.violation(rid, 'verificationString#%s#unsorted' % what, f.loc(use_nid), 'the %s reach the hashed string without being sorted on every path' % what)
-            return
-        s = ss[-1]
-        # collation
-        elem_is_string = 'QString' in s[3] or 'QStringList' in s[3]
-        if s[1] == 'QStringList::sort' or (s[2] is None and elem_is_string):
-            run.violation(rid, 'verificationString#%s#collation' % what, f.loc(s[0]),
-                          'the %s are sorted with QString\'s operator< (UTF-16 code unit order); XEP-0115 requires i;octet (UTF-8 byte order), which differs '
-                          'for characters outside the BMP' % what)
-            return
-        if s[2] is not None:
-            kind, target = comparator_kind(prog, f, s[2])
-            if target is not None and target.name == 'identityLessThan' or (target is not None and any(IDENT in target.fmt(i2, inline=False) for i2, _ in target.calls())):
-                pass  # the identity comparator is decided by C20.R2
-            elif kind is None:
-                raise AnalysisBroken('C20.R1: comparator %s of the %s sort has a form the checker does not know' % (f.fmt(s[2], inline=False)[:40], what))
-            elif kind[0] != 'octet' or kind[1]:
-                run.violation(rid, 'verificationString#%s#collation' % what, f.loc(s[0]),
-                              'the %s are sorted %s; XEP-0115 requires ascending i;octet order' % (what, 'descending' if kind[1] else 'by ' + kind[0] + ' order'))
+        def check_sorted(container, use_nid, what, need_dedup=False, f=f, sorts=sorts):
+            run.instance(rid)
+            if container is None or container.get('vk') != 'local':
+                run.violation(rid, 'verificationString#%s#unsorted' % what, f.loc(use_nid), 'the %s are appended in the order they are stored (no sorted local copy)' % what)
                 return
-        # mutations after the sort
+            decl = container['decl']
+            ss = [x for x in sorts.get(decl, []) if f.node_dominates(x[0], use_nid)]
+            if not ss:
+                run.violation(rid, 'verificationString#%s#unsorted' % what, f.loc(use_nid), 'the %s reach the hashed string without being sorted on every path' % what)
+                return
+            x = ss[-1]
+            # collation
+            elem_is_string = 'QString' in x[3] or 'QStringList' in x[3]
+            if x[1] == 'QStringList::sort' or (x[2] is None and elem_is_string):
+                run.violation(rid, 'verificationString#%s#collation' % what, f.loc(x[0]),
+                              'the %s are sorted with QString\'s operator< (UTF-16 code unit order); XEP-0115 requires i;octet (UTF-8 byte order), which differs '
+                              'for characters outside the BMP' % what)
+                return
+            if x[2] is not None:
+                kind, target = comparator_kind(prog, f, x[2])
+                if target is not None and _mentions_identity(prog, target):
+                    pass  # the identity comparator is decided by C20.R2
+                elif kind is None:
+                    raise AnalysisBroken('C20.R1: comparator %s of the %s sort has a form the checker does not know' % (f.fmt(x[2], inline=False)[:40], what))
+                elif kind[0] != 'octet' or kind[1]:
+                    run.violation(rid, 'verificationString#%s#collation' % what, f.loc(x[0]),
+                                  'the %s are sorted %s; XEP-0115 requires ascending i;octet order' % (what, 'descending' if kind[1] else 'by ' + kind[0] + ' order'))
+                    return
+            # mutations after the sort
+            for i, n in f.calls():
+                if n.get('obj') is None:
+                    continue
+                v = f.nodes[f.skip(n['obj'])]
+                if v['k'] != 'var' or v.get('decl') != decl:
+                    continue
+                m = f.cname(n).split('::')[-1]
+                if m in NON_MUTATING or m == 'removeDuplicates' or m == 'sort':
+                    continue
+                if f.node_dominates(x[0], i) and not f.node_dominates(use_nid, i):
+                    run.violation(rid, 'verificationString#%s#mutated-after-sort' % what, f.loc(i), 'the sorted %s are modified (%s) before being appended' % (what, m))
+                    return
+            if need_dedup:
+                dd = [i for i, n in f.calls() if f.cname(n).endswith('::removeDuplicates') and n.get('obj') is not None
+                      and f.nodes[f.skip(n['obj'])].get('decl') == decl and f.node_dominates(i, use_nid)]
+                if not dd:
+                    run.violation(rid, 'verificationString#%s#duplicates' % what, f.loc(use_nid), 'a repeated feature is hashed twice (no removeDuplicates on the sorted copy)')
+                    return
+            run.ok(rid, f.loc(x[0]), '%s: sorted local copy (%s)%s' % (what, f.fmt(x[0], inline=False)[:70], ', de-duplicated' if need_dedup else ''))
+
+        for cond_bid, loopvar, container, body, t in loops:
+            inside = [i for i, _ in apps if f.pos(i) and f.pos(i)[0] in body] + [i for i in helper_calls if f.pos(i) and f.pos(i)[0] in body]
+            if not inside:
+                continue
+            # where does the container come from?
+            src = ''
+            if container is not None:
+                d = f.single_def(container['decl'])
+                src = f.fmt(d, inline=False) if d is not None else ''
+            what = 'identities' if 'identities' in src else 'features' if 'features' in src else 'form field keys' if '::keys()' in src else 'elements of ' + f.fmt(t['range'], inline=False)[:30]
+            seen_sources.add(what)
+            first_decl = [i for i, n in f.all_nodes('decl') if any(d.get('name', '').startswith('__range') and f.skip(d.get('init')) == f.skip(t['range']) for d in n['decls'])]
+            use = first_decl[0] if first_decl else inside[0]
+            check_sorted(container, use, what, need_dedup=(what == 'features'))
+        # multi-values
         for i, n in f.calls():
-            if n.get('obj') is None:
+            if not (f.cname(n).endswith('::join') and n.get('obj') is not None):
                 continue
+            n_joins += 1
             v = f.nodes[f.skip(n['obj'])]
-            if v['k'] != 'var' or v.get('decl') != decl:
-                continue
-            m = f.cname(n).split('::')[-1]
-            if m in NON_MUTATING or m == 'removeDuplicates' or m == 'sort':
-                continue
-            if f.node_dominates(s[0], i) and not f.node_dominates(use_nid, i):
-                run.violation(rid, 'verificationString#%s#mutated-after-sort' % what, f.loc(i), 'the sorted %s are modified (%s) before being appended' % (what, m))
-                return
-        if need_dedup:
-            dd = [i for i, n in f.calls() if f.cname(n).endswith('::removeDuplicates') and n.get('obj') is not None
-                  and f.nodes[f.skip(n['obj'])].get('decl') == decl and f.node_dominates(i, use_nid)]
-            if not dd:
-                run.violation(rid, 'verificationString#%s#duplicates' % what, f.loc(use_nid), 'a repeated feature is hashed twice (no removeDuplicates on the sorted copy)')
-                return
-        run.ok(rid, f.loc(s[0]), '%s: sorted local copy (%s)%s' % (what, f.fmt(s[0], inline=False)[:70], ', de-duplicated' if need_dedup else ''))
-
-    for cond_bid, loopvar, container, body, t in loops:
-        inside = [(i, n) for i, n in apps if f.pos(i) and f.pos(i)[0] in body]
-        if not inside:
-            continue
-        # where does the container come from?
-        src = ''
-        if container is not None:
-            d = f.single_def(container['decl'])
-            src = f.fmt(d, inline=False) if d is not None else ''
-        what = 'identities' if 'identities' in src else 'features' if 'features' in src else 'form field keys' if '::keys()' in src else 'elements of ' + f.fmt(t['range'], inline=False)[:30]
-        seen_sources.add(what)
-        first_decl = [i for i, n in f.all_nodes('decl') if any(d.get('name', '').startswith('__range') and f.skip(d.get('init')) == f.skip(t['range']) for d in n['decls'])]
-        use = first_decl[0] if first_decl else inside[0][0]
-        check_sorted(container, use, what, need_dedup=(what == 'features'))
+            check_sorted(v if v['k'] == 'var' else None, i, 'field values')
+            run.instance(rid)
+            if n['args'] and _is_char(f, n['args'][0], 60, '<'):
+                run.ok(rid, f.loc(i), 'multi-values joined with "<"')
+            else:
+                run.violation(rid, 'verificationString#field-values#separator', f.loc(i), 'multi-values are not separated by "<"')
+    f0 = scope[0][0]
     for need in ('identities', 'features', 'form field keys'):
         if need not in seen_sources:
             run.instance(rid)
-            run.violation(rid, 'verificationString#%s#missing' % need, f.loc(), 'the %s do not contribute to the hashed string' % need)
-    # multi-values
-    joins = [(i, n) for i, n in f.calls() if f.cname(n).endswith('::join') and n.get('obj') is not None]
-    if not joins:
+            run.violation(rid, 'verificationString#%s#missing' % need, f0.loc(), 'the %s do not contribute to the hashed string' % need)
+    if not n_joins:
         raise AnalysisBroken('C20.R1: the multi-value join was not found')
-    for i, n in joins:
-        v = f.nodes[f.skip(n['obj'])]
-        check_sorted(v if v['k'] == 'var' else None, i, 'field values')
-        run.instance(rid)
-        if n['args'] and _is_char(f, n['args'][0], 60, '<'):
-            run.ok(rid, f.loc(i), 'multi-values joined with "<"')
-        else:
-            run.violation(rid, 'verificationString#field-values#separator', f.loc(i), 'multi-values are not separated by "<"')
 
 
 # ---------------------------------------------------------------------------------------------------------------
@@ -265,17 +367,36 @@ def r_cmp(prog, run):
     rid = run.rule('C20.R2', 'the identity comparator is the strict lexicographic order on (category, type, xml:lang, name) under i;octet for all 81 orderings '
                              'of the four keys; the hashed identity string uses the same four accessors in the same order', floor=82)
     f = prog.fn(VS)
-    sorts = _sort_sites(prog, f)
     cmpf = None
-    for decl, ss in sorts.items():
-        for s in ss:
-            if s[2] is not None:
-                kind, target = comparator_kind(prog, f, s[2])
-                if target is not None and any(IDENT in target.fmt(i2, inline=False) for i2, _ in target.calls()):
-                    cmpf = target
+    for g, _sd in _scope(prog):
+        for decl, ss in _sort_sites(prog, g).items():
+            for x in ss:
+                if x[2] is not None:
+                    target = _callable_target(prog, g, x[2])
+                    if target is not None and _mentions_identity(prog, target):
+                        cmpf = target
     if cmpf is None:
         run.instance(rid)
         run.violation(rid, 'verificationString#identities#comparator', f.loc(), 'identities are not sorted with a comparator over their four keys')
+        return
+    tf = _tuple_form(prog, cmpf)
+    if tf is not None:
+        # K(a) < K(b) with K = tuple of keys: std::tuple's operator< is the lexicographic order of the components (library contract)
+        keys, utf8, swapped = tf
+        for rel in itertools.product((-1, 0, 1), repeat=4):
+            run.instance(rid)
+            if keys == KEYS and not swapped:
+                run.ok(rid, cmpf.loc(), 'ordering %s: decided by the lexicographic operator< of the key tuple (category, type, language, name)' % (rel,), nontrivial=(rel.count(0) >= 2))
+        if keys != KEYS or swapped:
+            run.violation(rid, 'identityLessThan#not-lexicographic', cmpf.loc(),
+                          'the identity comparator orders by the key tuple (%s)%s instead of ascending (category, type, language, name)' % (', '.join(keys), ' descending' if swapped else ''))
+        run.instance(rid)
+        if all(utf8):
+            run.ok(rid, cmpf.loc(), 'all key comparisons use UTF-8 byte order')
+        else:
+            run.violation(rid, 'identityLessThan#collation', cmpf.loc(), 'identity keys are compared in utf16 order; XEP-0115 requires i;octet (UTF-8 byte order), which differs for '
+                                                                          'characters outside the BMP')
+        _identity_string(prog, run, rid, f)
         return
 
     # atoms: comparisons between the same accessor of both parameters
@@ -303,17 +424,26 @@ def r_cmp(prog, run):
                     kinds_used.add('octet' if all(utf8) else 'utf16')
                 return a[0], bo[0], a[1] > b[1]
             return None
-        if n['k'] == 'call' and len(n.get('args', [])) == 2 and not n.get('op'):
-            a, b = accessor(g, n['args'][0]), accessor(g, n['args'][1])
-            if a and b and a[0] == b[0] and a[1] != b[1]:
+        if n['k'] == 'call' and (not n.get('op') or n.get('op') == '()'):
+            if n.get('op') == '()':
+                cargs = list(n.get('opargs', [])[1:])
+                tgt = _callable_target(prog, g, n['opargs'][0]) if n.get('opargs') else None
+                cn = g.fmt(n['opargs'][0], inline=False) if n.get('opargs') else '?'
+            else:
+                cargs = list(n.get('args', []))
+                hs = prog.callee_fns(g, n) or prog.fns_named(g.cname(n))
+                tgt = hs[0] if hs else None
                 cn = g.cname(n)
+            if len(cargs) != 2:
+                return None
+            a, b = accessor(g, cargs[0]), accessor(g, cargs[1])
+            if a and b and a[0] == b[0] and a[1] != b[1]:
                 if cn not in helper_kind:
-                    hs = prog.fns_named(cn)
                     k = None
-                    if hs:
-                        rets = [rn for _, rn in hs[0].returns()]
+                    if tgt is not None:
+                        rets = [rn for _, rn in tgt.returns()]
                         if len(rets) == 1:
-                            k = string_less_kind(prog, hs[0], rets[0]['e'])
+                            k = string_less_kind(prog, tgt, rets[0]['e'])
                     helper_kind[cn] = k
                 k = helper_kind[cn]
                 if k is None:
@@ -372,19 +502,67 @@ def r_cmp(prog, run):
     else:
         run.violation(rid, 'identityLessThan#collation', cmpf.loc(), 'identity keys are compared in %s order; XEP-0115 requires i;octet (UTF-8 byte order), which differs for '
                                                                       'characters outside the BMP' % '/'.join(sorted(kinds_used)))
+    _identity_string(prog, run, rid, f)
+
+
+def _tuple_form(prog, cmpf):
+    """comparator of the form  return K(a) < K(b)  where K builds a tuple of per-identity keys: (key names in order, [is UTF-8 form], descending?)"""
+    rets = [rn for _, rn in cmpf.returns()]
+    if len(rets) != 1 or 'e' not in rets[0]:
+        return None
+    bo = cmpf.binop(cmpf.skip(rets[0]['e']))
+    if not bo or bo[0] not in ('<', '>'):
+        return None
+    sides = []
+    for x in (bo[1], bo[2]):
+        n = cmpf.nodes[cmpf.skip(x)]
+        if n['k'] != 'call' or n.get('op') or len(n.get('args', [])) != 1:
+            return None
+        a = cmpf.nodes[cmpf.skip(n['args'][0])]
+        ks = prog.callee_fns(cmpf, n)
+        if a['k'] != 'var' or a.get('vk') != 'param' or len(ks) != 1:
+            return None
+        sides.append((ks[0], a['pidx']))
+    if sides[0][0].id != sides[1][0].id or sides[0][1] == sides[1][1]:
+        return None
+    K = sides[0][0]
+    krets = [rn for _, rn in K.returns()]
+    if len(krets) != 1 or 'tuple' not in (K.raw.get('ret') or K.raw.get('t') or 'tuple'):
+        return None
+    e = K.skip(krets[0]['e'])
+    n = K.nodes[e]
+    while n['k'] in ('construct', 'cast', 'icast') and len(n.get('args', [n.get('e')])) == 1 and K.nodes[K.skip((n.get('args') or [n.get('e')])[0])]['k'] in ('initlist', 'construct', 'call'):
+        e = K.skip((n.get('args') or [n.get('e')])[0])
+        n = K.nodes[e]
+    elems = n.get('elems') if n['k'] == 'initlist' else n.get('args')
+    if not elems or len(elems) < 2:
+        return None
+    keys, utf8 = [], []
+    for el in elems:
+        utf8.append(_is_utf8(K, el))
+        base = K.nodes[_strip_conv(K, el)]
+        if base['k'] == 'call' and K.cname(base).startswith(IDENT) and base.get('obj') is not None and K.nodes[K.skip(base['obj'])].get('vk') == 'param':
+            keys.append(K.cname(base)[len(IDENT):])
+        else:
+            return None
+    swapped = (sides[0][1] > sides[1][1]) != (bo[0] == '>')
+    return keys, utf8, swapped
+
+
+def _identity_string(prog, run, rid, f):
     # the appended identity string
-    sdecl, _ = _s_var(f)
+    sdecl = _s_var(f)[0]
     apps = _appends(f, sdecl)
     run.instance(rid)
     found = False
     for cond_bid, loopvar, container, body, t in _loops(f):
-        inside = sorted((i for i, n in apps if f.pos(i) and f.pos(i)[0] in body), key=lambda i: (f.nodes[i].get('ln', 0), i))
-        if not inside or not any(IDENT in f.fmt(f.nodes[i]['r'], inline=False) for i in inside):
+        inside = sorted(((i, r) for i, r in apps if f.pos(i) and f.pos(i)[0] in body), key=lambda x: (f.nodes[x[0]].get('ln', 0), f.pos(x[0])[1], x[0]))
+        if not inside or not any(IDENT in f.fmt(r, inline=False) for _, r in inside):
             continue
         found = True
         shape = []
-        for i in inside:   # the pieces may be appended in one statement or several
-            for p in _flatten(f, f.nodes[i]['r']):
+        for i, r in inside:   # the pieces may be appended in one statement or several
+            for p in _flatten(f, r):
                 pn = f.nodes[p]
                 if pn['k'] == 'call' and f.cname(pn).startswith(IDENT) and f.nodes[f.skip(pn['obj'])].get('decl') == loopvar:
                     shape.append(f.cname(pn)[len(IDENT):])
@@ -395,87 +573,136 @@ def r_cmp(prog, run):
                 else:
                     shape.append('?' + f.fmt(p, inline=False)[:20])
         if shape == ['category', '/', 'type', '/', 'language', '/', 'name', '<']:
-            run.ok(rid, f.loc(inside[0]), 'identity string: category/type/lang/name<')
+            run.ok(rid, f.loc(inside[0][0]), 'identity string: category/type/lang/name<')
         else:
-            run.violation(rid, 'verificationString#identity-string', f.loc(inside[0]), 'the identity is hashed as %s instead of category/type/lang/name<' % ''.join(shape))
+            run.violation(rid, 'verificationString#identity-string', f.loc(inside[0][0]), 'the identity is hashed as %s instead of category/type/lang/name<' % ''.join(shape))
     if not found:
         run.violation(rid, 'verificationString#identity-string', f.loc(), 'no identity string is appended')
 
 
 # ---------------------------------------------------------------------------------------------------------------
+def _piece_exits(prog, g, sd, scope, entry, hash_call, bad_sites, depth=0):
+    """exit states of the piece/terminator typestate of g when entered in state `entry` (T terminated, O open piece, J joined by "/", BAD)"""
+    apps = dict(_appends(g, sd))
+    helper_calls = _helper_calls(prog, g, sd, scope) if depth < 3 else {}
+
+    def transfer(gg, nid, st):
+        if st == 'BAD':
+            return None
+        if nid in apps:
+            parts = _flatten(gg, apps[nid])
+            term = _is_char(gg, parts[-1], 60, '<')
+            # an open piece may only be continued by a separator ("<" ends it, "/" joins the next identity key)
+            if st == 'O' and not (_is_char(gg, parts[0], 60, '<') or _is_char(gg, parts[0], 47, '/')):
+                bad_sites.append((gg, nid))
+                return 'BAD'
+            return 'T' if term else ('J' if _is_char(gg, parts[-1], 47, '/') else 'O')
+        if nid in helper_calls:
+            h, hsd = helper_calls[nid]
+            sub = set(_piece_exits(prog, h, hsd, scope, st, None, bad_sites, depth + 1))
+            if 'BAD' in sub:
+                return 'BAD'
+            if len(sub) == 1:
+                return sub.pop()
+            bad_sites.append((gg, nid))         # the helper leaves the string terminated on some paths and open on others
+            return 'BAD'
+        if hash_call is not None and nid == hash_call and st != 'T':
+            bad_sites.append((gg, nid))
+            return 'BAD'
+        return None
+    exits, info = cfgx.explore(g, entry, transfer, None)
+    _piece_exits.states += info['states']
+    return exits
+
+
+_piece_exits.states = 0
+
+
 def r_string(prog, run):
     rid = run.rule('C20.R3', 'every piece of the hashed string is terminated by "<" on every path, FORM_TYPE is taken out of the map and appended first, every '
                              'remaining key contributes its key and value(s); the digest is SHA-1 over the UTF-8 form', floor=6)
-    f = prog.fn(VS)
-    sdecl, hash_call = _s_var(f)
-    apps = dict(_appends(f, sdecl))
-
-    def transfer(g, nid, st):
-        if nid in apps:
-            parts = _flatten(g, apps[nid]['r'])
-            term = _is_char(g, parts[-1], 60, '<')
-            if st.startswith('BAD'):
-                return st
-            # an open piece may only be continued by a separator ("<" ends it, "/" joins the next identity key)
-            if st == 'O' and not (_is_char(g, parts[0], 60, '<') or _is_char(g, parts[0], 47, '/')):
-                return 'BAD:%d' % nid
-            return 'T' if term else ('J' if _is_char(g, parts[-1], 47, '/') else 'O')
-        if nid == hash_call and not st.startswith('BAD') and st != 'T':
-            return 'BAD:%d' % nid
-        return None
-    exits, info = cfgx.explore(f, 'T', transfer, None)
-    run.paths += info['states']
+    f0 = prog.fn(VS)
+    sdecl0, hash_call, alg_node = _s_var(f0)
+    scope = _scope(prog)
+    n_apps = sum(len(_appends(g, sd)) for g, sd in scope)
+    bad_sites = []
+    _piece_exits.states = 0
+    exits = _piece_exits(prog, f0, sdecl0, scope, 'T', hash_call, bad_sites)
+    run.paths += _piece_exits.states
     run.instance(rid)
-    badst = [st for st in exits if st.startswith('BAD')]
-    if badst:
-        nid = int(badst[0].split(':')[1])
-        run.violation(rid, 'verificationString#separator', f.loc(nid), 'on some path a piece of the hashed string is not terminated by "<" before the next piece / the digest',
-                      cfgx.describe_path(f, exits[badst[0]]))
+    if 'BAD' in exits:
+        g, nid = bad_sites[0] if bad_sites else (f0, hash_call)
+        run.violation(rid, 'verificationString#separator', g.loc(nid), 'on some path a piece of the hashed string is not terminated by "<" before the next piece / the digest',
+                      cfgx.describe_path(f0, exits['BAD']))
     else:
-        run.ok(rid, f.loc(), 'all %d appends keep the piece"<" discipline on all paths (%d states)' % (len(apps), info['states']))
-    # features: "<feature><"
-    # FORM_TYPE first
-    takes = [(i, n) for i, n in f.calls() if f.cname(n).endswith('::take') and n['args'] and f.strval(n['args'][0]) == 'FORM_TYPE']
-    keys_calls = [(i, n) for i, n in f.calls() if f.cname(n).endswith('::keys')]
+        run.ok(rid, f0.loc(), 'all %d appends keep the piece"<" discipline on all paths (%d states)' % (n_apps, _piece_exits.states))
+    # FORM_TYPE first: in the function that lists the keys of the field map
+    form = [(g, sd) for g, sd in scope if any(g.cname(n).endswith('::keys') for _, n in g.calls())]
     run.instance(rid)
-    if not takes or not keys_calls:
-        run.violation(rid, 'verificationString#form-type', f.loc(), 'FORM_TYPE is not taken out of the field map before the remaining keys are listed')
+    if not form:
+        run.violation(rid, 'verificationString#form-type', f0.loc(), 'FORM_TYPE is not taken out of the field map before the remaining keys are listed')
     else:
-        ti = takes[0][0]
-        # the variable holding the taken field
-        form_apps = [i for i in apps if f.node_dominates(ti, i)]
-        ft_apps = [i for i in form_apps if 'take("FORM_TYPE")' in f.fmt(apps[i]['r'], inline=True) and 'QXmppDataForm::Field::value()' in f.fmt(apps[i]['r'], inline=True)]
-        others = [i for i in form_apps if i not in ft_apps]
-        if not ft_apps:
-            run.violation(rid, 'verificationString#form-type', f.loc(ti), 'the FORM_TYPE value is not appended')
-        elif not all(f.node_dominates(ft_apps[0], o) for o in others) or not all(f.node_dominates(ti, k) for k, _ in keys_calls):
-            run.violation(rid, 'verificationString#form-type-first', f.loc(ft_apps[0]), 'the FORM_TYPE value is not the first piece of the form / FORM_TYPE stays among the keys')
+        f, sdecl = form[0]
+        apps = dict(_appends(f, sdecl))
+        hcalls = _helper_calls(prog, f, sdecl, scope)
+        keys_calls = [(i, n) for i, n in f.calls() if f.cname(n).endswith('::keys')]
+        # removal: take("FORM_TYPE"), or erase(<iterator found for "FORM_TYPE">) / remove("FORM_TYPE")
+        removed = [i for i, n in f.calls() if f.cname(n).split('::')[-1] in ('take', 'remove') and n.get('args') and f.strval(n['args'][0]) == 'FORM_TYPE']
+        for i, n in f.calls():
+            if f.cname(n).split('::')[-1] == 'erase' and n.get('args'):
+                src = f.nodes[f.resolve(n['args'][0])]
+                if src['k'] == 'call' and f.cname(src).split('::')[-1] in ('find', 'constFind') and src.get('args') and f.strval(src['args'][0]) == 'FORM_TYPE':
+                    removed.append(i)
+        if not removed or not keys_calls:
+            run.violation(rid, 'verificationString#form-type', f.loc(), 'FORM_TYPE is not taken out of the field map before the remaining keys are listed')
         else:
-            run.ok(rid, f.loc(ft_apps[0]), 'FORM_TYPE taken out of the map, its value appended before any other field')
+            ti = removed[0]
+
+            def is_form_type_value(r):
+                t = f.fmt(r, inline=True)
+                return ('take("FORM_TYPE")' in t or 'find("FORM_TYPE")' in t or 'value("FORM_TYPE")' in t or 'constFind("FORM_TYPE")' in t) and 'QXmppDataForm::Field::value()' in t
+            ft_apps = [i for i in apps if is_form_type_value(apps[i])]
+            # everything else the form contributes: appends and helper calls behind the FORM_TYPE test
+            first_ft = min(ft_apps, key=lambda i: f.pos(i)) if ft_apps else None
+            others = [i for i in list(apps) + list(hcalls) if i not in ft_apps and first_ft is not None
+                      and not _same_statement(f, i, ft_apps) and (f.node_dominates(ti, i) or f.node_dominates(first_ft, i))]
+            if not ft_apps:
+                run.violation(rid, 'verificationString#form-type', f.loc(ti), 'the FORM_TYPE value is not appended')
+            elif not all(f.node_dominates(first_ft, o) for o in others) or not all(f.node_dominates(ti, k) for k, _ in keys_calls):
+                run.violation(rid, 'verificationString#form-type-first', f.loc(ft_apps[0]), 'the FORM_TYPE value is not the first piece of the form / FORM_TYPE stays among the keys')
+            else:
+                run.ok(rid, f.loc(ft_apps[0]), 'FORM_TYPE taken out of the map, its value appended before any other field')
     # each key contributes key and value
     run.instance(rid)
     key_loop = None
-    for cond_bid, loopvar, container, body, t in _loops(f):
-        if container is not None and '::keys()' in (f.fmt(f.single_def(container['decl']), inline=False) if f.single_def(container['decl']) is not None else ''):
-            key_loop = (loopvar, body)
+    for g, sd in scope:
+        for cond_bid, loopvar, container, body, t in _loops(g):
+            if container is not None and '::keys()' in (g.fmt(g.single_def(container['decl']), inline=False) if g.single_def(container['decl']) is not None else ''):
+                key_loop = (g, sd, loopvar, body)
     if key_loop is None:
-        run.violation(rid, 'verificationString#form-fields', f.loc(), 'the remaining form fields are not appended')
+        run.violation(rid, 'verificationString#form-fields', f0.loc(), 'the remaining form fields are not appended')
     else:
-        loopvar, body = key_loop
+        f, sdecl, loopvar, body = key_loop
+        apps = dict(_appends(f, sdecl))
+        hcalls = _helper_calls(prog, f, sdecl, scope)
         inside = [i for i in apps if f.pos(i) and f.pos(i)[0] in body]
-        key_app = [i for i in inside if any(f.nodes[p].get('decl') == loopvar for p in _flatten(f, apps[i]['r']))]
-        val_app = [i for i in inside if 'QXmppDataForm::Field::value()' in f.fmt(apps[i]['r'], inline=True)]
-        by_key = True
-        lookup_ok = all(('QMap<QString, QXmppDataForm::Field>::value(' in f.fmt(apps[i]['r'], inline=True)) for i in val_app)
+        key_app = [i for i in inside if any(f.nodes[p].get('decl') == loopvar for p in _flatten(f, apps[i]))]
+        val_app = [i for i in inside if 'QXmppDataForm::Field::value()' in f.fmt(apps[i], inline=True)]
+        lookup_ok = all(('QMap<QString, QXmppDataForm::Field>::value(' in f.fmt(apps[i], inline=True)) for i in val_app)
+        # a helper that is handed the string and the field looked up for this key, and appends the field's value(s)
+        for i, (h, hsd) in hcalls.items():
+            if f.pos(i) and f.pos(i)[0] in body and any('QXmppDataForm::Field::value()' in h.fmt(r, inline=True) for _, r in _appends(h, hsd)):
+                val_app.append(i)
+                lookup_ok = lookup_ok and 'QMap<QString, QXmppDataForm::Field>::value(' in f.fmt(i, inline=True)
         if not key_app:
             run.violation(rid, 'verificationString#form-fields#key', f.loc(), 'the field key is not part of the hashed string')
-        elif not val_app or not lookup_ok or not by_key:
+        elif not val_app or not lookup_ok:
             run.violation(rid, 'verificationString#form-fields#value', f.loc(), 'the field value(s) of each key are not part of the hashed string')
         else:
             # each iteration appends a value on every path: val appends cover both arms of the multi/single test
             posd = f.pdom()
             body_entry = f.pos(key_app[0])[0]
-            covered = any(('b', f.pos(v)[0]) in posd.get(('b', body_entry), set()) for v in val_app)
+            covered = any(('b', f.pos(v)[0]) in posd.get(('b', body_entry), set()) or f.pos(v)[0] == body_entry for v in val_app)
             if not covered:
                 # several arms: explore the body from the key append and require a value append before the back edge
                 exits2, _ = cfgx.explore(f, 'N', lambda g, nid, st: ('K' if nid in key_app else 'V' if (nid in val_app and st == 'K') else ('MISS' if (nid in key_app and st == 'K') else None)), None)
@@ -487,21 +714,23 @@ def r_string(prog, run):
     # features appended as feature<
     run.instance(rid)
     feat = None
-    for cond_bid, loopvar, container, body, t in _loops(f):
-        if container is not None and f.single_def(container['decl']) is not None and 'features' in f.fmt(f.single_def(container['decl']), inline=False):
-            for i in apps:
-                if f.pos(i) and f.pos(i)[0] in body:
-                    parts = _flatten(f, apps[i]['r'])
-                    if f.nodes[parts[0]].get('decl') == loopvar and all(_is_char(f, x, 60, '<') for x in parts[1:]):
-                        feat = i     # the terminator is decided by the typestate above
+    for f, sdecl in scope:
+        apps = dict(_appends(f, sdecl))
+        for cond_bid, loopvar, container, body, t in _loops(f):
+            if container is not None and f.single_def(container['decl']) is not None and 'features' in f.fmt(f.single_def(container['decl']), inline=False):
+                for i in apps:
+                    if f.pos(i) and f.pos(i)[0] in body:
+                        parts = _flatten(f, apps[i])
+                        if f.nodes[parts[0]].get('decl') == loopvar and all(_is_char(f, x, 60, '<') for x in parts[1:]):
+                            feat = (f, i)     # the terminator is decided by the typestate above
     if feat is not None:
-        run.ok(rid, f.loc(feat), 'features appended as feature"<"')
+        run.ok(rid, feat[0].loc(feat[1]), 'features appended as feature"<"')
     else:
-        run.violation(rid, 'verificationString#feature-string', f.loc(), 'features are not appended as feature"<"')
+        run.violation(rid, 'verificationString#feature-string', f0.loc(), 'features are not appended as feature"<"')
     # digest
+    f = f0
     run.instance(rid)
-    ctor = [n for i, n in f.all_nodes('construct') if n.get('cls') == 'QCryptographicHash']
-    alg = f.const_value(ctor[0]['args'][0]) if ctor and ctor[0].get('args') else None
+    alg = f.const_value(alg_node) if alg_node is not None else None
     if alg == ('enum', 'QCryptographicHash::Sha1'):
         run.ok(rid, f.loc(hash_call), 'QCryptographicHash::Sha1')
     else:
@@ -520,6 +749,17 @@ def r_string(prog, run):
         run.ok(rid, f.loc(), 'reads d->identities, d->features, d->form')
     else:
         run.violation(rid, 'verificationString#inputs', f.loc(), 'not all of identities/features/form are read (%s)' % sorted(srcs))
+
+
+def _same_statement(f, i, others):
+    """i belongs to the same append chain / statement as one of others (S.append(a).append(b) is one piece)"""
+    par = f.parents()
+
+    def top(x):
+        while par.get(x) is not None and f.nodes[par[x]]['k'] in ('call', 'assign', 'cast', 'icast'):
+            x = par[x]
+        return x
+    return any(top(i) == top(o) for o in others)
 
 
 # ---------------------------------------------------------------------------------------------------------------
@@ -643,10 +883,13 @@ def r_source(prog, run):
 def r_multi(prog, run):
     rid = run.rule('C20.R5', 'every multi-valued data form field type reaches the sorted, "<"-joined branch of the hashed string (none of them is hashed through the single-value '
                              'conversion, which yields an empty string for a list)', floor=2)
-    f = prog.fn(VS)
-    joins = [i for i, n in f.calls() if f.cname(n).endswith('::join')]
-    if not joins:
+    f = None
+    for g, sd in _scope(prog):
+        if any(g.cname(n).endswith('::join') for _, n in g.calls()):
+            f = g           # the function (verificationString or a helper it hands the string to) that decides single / multi value
+    if f is None:
         raise AnalysisBroken('C20.R5: join not found in verificationString')
+    joins = [i for i, n in f.calls() if f.cname(n).endswith('::join')]
     en = prog.enum('QXmppDataForm::Field::Type')
     multi = [e['name'] for e in en['enumerators'] if 'Multi' in e['name']]
     if len(multi) < 2:
